@@ -11,7 +11,7 @@
 (*   int      C15  integer rules and conversions                           *)
 (*   cls u8 u16 u32 uint istr   C10  character classes and encodings       *)
 (***************************************************************************)
-EXTENDS Integers, Sequences, FiniteSets, TLC
+EXTENDS Integers, Sequences, FiniteSets, TLC, Bitwise
 
 \* the denotational definitions, over the bytes of one record
 P(w) == INSTANCE PegDen WITH Nodes <- <<>>, W <- w
@@ -165,6 +165,102 @@ IntRec(r, idx) ==
       ELSE If(r.res # 2, V("C15", idx, "int", "overflow not reported: a wrapped or truncated value was stored", <<r.rule, r.res, r.stored>>, w))
 
 -----------------------------------------------------------------------------
+(* C10: character classes and encodings *)
+P0 == INSTANCE PegDen WITH Nodes <- <<>>, W <- <<>>
+ClsRanges(rule) ==
+   CASE rule \in P0!ClassOps  -> P0!ClassRanges(rule)
+     [] rule = "any"          -> <<0, 255>>
+     \* RFC 5234 core rules (ABNF strings are case insensitive, hence HEXDIG accepts a-f as well)
+     [] rule = "abnf_ALPHA"   -> <<65, 90, 97, 122>>
+     [] rule = "abnf_DIGIT"   -> <<48, 57>>
+     [] rule = "abnf_HEXDIG"  -> <<48, 57, 65, 70, 97, 102>>
+     [] rule = "abnf_VCHAR"   -> <<33, 126>>
+     [] rule = "abnf_CTL"     -> <<0, 31, 127>>
+     [] rule = "abnf_WSP"     -> <<32, 32, 9>>
+     [] rule = "abnf_BIT"     -> <<48, 49>>
+     [] rule = "abnf_CHAR"    -> <<1, 127>>
+     [] rule = "abnf_OCTET"   -> <<0, 255>>
+     [] rule = "abnf_SP"      -> <<32>>
+     [] rule = "abnf_HTAB"    -> <<9>>
+     [] rule = "abnf_DQUOTE"  -> <<34>>
+     [] rule = "abnf_CR"      -> <<13>>
+     [] rule = "abnf_LF"      -> <<10>>
+Cls(r, idx) ==
+   LET want == {b \in 0..255 : P0!InRanges(b, ClsRanges(r.rule))}
+       got == {r.acc[i] : i \in DOMAIN r.acc}
+   IN If(got # want, V("C10", idx, "cls", "class rule does not accept exactly its documented bytes", <<r.rule, got \ want, want \ got>>, 0))
+      \o If(r.bad # 0 \/ r.empty # 0, V("C10", idx, "cls", "class rule does not consume exactly one byte when and only when it matches", <<r.rule, r.bad, r.empty>>, 0))
+
+U8Rec(r, idx) ==
+   LET d == P(r.w)!U8(0, Len(r.w))
+       okv == d[2] > 0
+   IN If(okv /\ (r.n # d[2] \/ r.hi * 65536 + r.lo # d[1] \/ r.rn # d[2]), V("C10", idx, "u8", "well-formed UTF-8 unit not decoded to its scalar value and length", <<r.w, r.n, r.hi, r.lo, r.rn>>, d))
+      \o If(~okv /\ (r.n # 0 \/ r.rn # 0), V("C10", idx, "u8", "ill-formed, truncated, overlong, surrogate or out-of-range UTF-8 accepted", <<r.w, r.n, r.hi, r.lo>>, 0))
+
+\* accept sets of all three- and four-byte sequences, per lead byte (Unicode Table 3-7)
+U8Agg(r, idx) ==
+   LET L == r.lead
+       lo == IF L = 224 THEN 2048 ELSE IF L <= 239 THEN (L - 224) * 4096 ELSE IF L = 240 THEN 65536 ELSE (L - 240) * 262144
+       hi == IF L = 237 THEN 55295 ELSE IF L <= 239 THEN (L - 224) * 4096 + 4095 ELSE IF L = 244 THEN 1114111 ELSE (L - 240) * 262144 + 262143
+       none == L > 244
+       cnt == IF none THEN 0 ELSE hi - lo + 1
+   IN If(r.badlen # 0, V("C10", idx, "u8agg", "multi-byte unit accepted with the wrong length", L, r.badlen))
+      \o If(none /\ (r.mn # -1 \/ r.cnt \notin {0, -1}), V("C10", idx, "u8agg", "lead byte above F4 accepted", L, <<r.cnt, r.mn, r.mx>>))
+      \o If(~none /\ r.cnt # -1 /\ (r.cnt # cnt \/ r.mn # lo \/ r.mx # hi), V("C10", idx, "u8agg", "accept set of a lead byte is not its Table 3-7 range", <<L, r.cnt, r.mn, r.mx>>, <<cnt, lo, hi>>))
+      \o If(~none /\ r.cnt = -1 /\ (r.mn < lo \/ r.mx > hi \/ r.mn > lo + 2 \/ r.mx < hi - 2), V("C10", idx, "u8agg", "sampled accept range of a lead byte outside its Table 3-7 range", <<L, r.mn, r.mx>>, <<lo, hi>>))
+
+Unit16(w, i, be) == IF be = 1 THEN w[i] * 256 + w[i+1] ELSE w[i+1] * 256 + w[i]
+U16Rec(r, idx) ==
+   LET w == r.w  n == Len(w)
+       u1 == IF n >= 2 THEN Unit16(w, 1, r.be) ELSE -1
+       u2 == IF n >= 4 THEN Unit16(w, 3, r.be) ELSE -1
+       want == IF n < 2 THEN <<0, 0>>
+               ELSE IF ~IsSurrogate(u1) THEN <<2, u1>>
+               ELSE IF IsHigh(u1) /\ n >= 4 /\ IsLow(u2) THEN <<4, (u1 - 55296) * 1024 + (u2 - 56320) + 65536>>
+               ELSE <<0, 0>>
+   IN If(r.n # want[1] \/ r.rn # want[1] \/ (want[1] > 0 /\ r.hi * 65536 + r.lo # want[2]),
+         V("C10", idx, "u16", "UTF-16 unit(s) not decoded as the standard prescribes", <<w, r.be, r.n, r.hi, r.lo>>, want))
+
+U32Rec(r, idx) ==
+   LET w == r.w  n == Len(w)
+       hi == IF n < 4 THEN 0 ELSE IF r.be = 1 THEN w[1] * 256 + w[2] ELSE w[4] * 256 + w[3]
+       lo == IF n < 4 THEN 0 ELSE IF r.be = 1 THEN w[3] * 256 + w[4] ELSE w[2] * 256 + w[1]
+       valid == n >= 4 /\ hi <= 16 /\ ~(hi = 0 /\ lo >= 55296 /\ lo <= 57343)
+   IN If(valid /\ (r.n # 4 \/ r.rn # 4 \/ r.hi # hi \/ r.lo # lo), V("C10", idx, "u32", "scalar value not accepted as one 4-byte unit", <<w, r.be, r.n, r.hi, r.lo>>, <<hi, lo>>))
+      \o If(~valid /\ (r.n # 0 \/ r.rn # 0), V("C10", idx, "u32", "surrogate, value above U+10FFFF or truncated unit accepted", <<w, r.be, r.n>>, 0))
+U32Agg(r, idx) ==
+   If(r.nranges # 2 \/ r.ranges # <<<<0, 0, 0, 55295>>, <<0, 57344, 16, 65535>>>>,
+      V("C10", idx, "u32agg", "accept set over all 32-bit units is not {0..D7FF, E000..10FFFF}", r.ranges, r.nranges))
+
+\* binary rules: values as four 16-bit limbs, most significant first
+LimbsOfBytes(w, nb, be) ==
+   LET B(i) == IF be = 1 THEN w[i] ELSE w[nb + 1 - i]                   \* i-th most significant byte
+       full == [i \in 1..8 |-> IF i > 8 - nb THEN B(i - (8 - nb)) ELSE 0]
+   IN <<full[1] * 256 + full[2], full[3] * 256 + full[4], full[5] * 256 + full[6], full[7] * 256 + full[8]>>
+LimbAnd(x, m) == <<x[1] & m[1], x[2] & m[2], x[3] & m[3], x[4] & m[4]>>
+RECURSIVE LimbLeqAt(_, _, _)
+LimbLeqAt(x, y, i) == IF i > 4 THEN TRUE ELSE IF x[i] < y[i] THEN TRUE ELSE IF x[i] > y[i] THEN FALSE ELSE LimbLeqAt(x, y, i + 1)
+LimbLeq(x, y) == LimbLeqAt(x, y, 1)
+UIntRec(r, idx) ==
+   LET nb == r.bits \div 8
+       have == Len(r.w) >= nb
+       v == IF have THEN LimbAnd(LimbsOfBytes(r.w, nb, r.be), r.mask) ELSE <<0, 0, 0, 0>>
+       hit == CASE r.kind = "one"     -> v = r.a
+                [] r.kind = "not_one" -> v # r.a
+                [] r.kind = "range"   -> LimbLeq(r.a, v) /\ LimbLeq(v, r.b)
+                [] r.kind = "any"     -> TRUE
+       want == have /\ hit
+   IN If((want /\ (r.res # 1 \/ r.n # nb)) \/ (~want /\ (r.res # 0 \/ r.n # 0)),
+         V("C10", idx, "uint", "binary rule does not test the endian-adjusted, masked value of a complete unit", <<r.kind, r.bits, r.be, r.mask, r.a, r.b, r.w, r.res, r.n>>, v))
+
+IStr(r, idx) ==
+   LET pat == r.pat  w == r.w
+       eq(i) == IF P0!IsAlphaByte(pat[i]) THEN P0!Fold(w[i]) = P0!Fold(pat[i]) ELSE w[i] = pat[i]
+       want == Len(w) >= Len(pat) /\ \A i \in 1..Len(pat) : eq(i)
+   IN If((want /\ (r.res # 1 \/ r.n # Len(pat))) \/ (~want /\ (r.res # 0 \/ r.n # 0)),
+         V("C10", idx, "istr", "case-insensitive string does not fold exactly the ASCII letters", <<w, r.res, r.n>>, pat))
+
+-----------------------------------------------------------------------------
 Check(r, idx) ==
    CASE r.f = "lines" -> Lines(r, idx)
      [] r.f = "u8app" -> U8App(r, idx)
@@ -175,5 +271,13 @@ Check(r, idx) ==
      [] r.f = "unc"   -> UnC(r, idx)
      [] r.f = "raw"   -> Raw(r, idx)
      [] r.f = "int"   -> IntRec(r, idx)
+     [] r.f = "cls"   -> Cls(r, idx)
+     [] r.f = "u8"    -> U8Rec(r, idx)
+     [] r.f = "u8agg" -> U8Agg(r, idx)
+     [] r.f = "u16"   -> U16Rec(r, idx)
+     [] r.f = "u32"   -> U32Rec(r, idx)
+     [] r.f = "u32agg" -> U32Agg(r, idx)
+     [] r.f = "uint"  -> UIntRec(r, idx)
+     [] r.f = "istr"  -> IStr(r, idx)
      [] OTHER -> <<V("C00", idx, r.f, "unknown observation record", 0, 0)>>
 =============================================================================
